@@ -420,15 +420,30 @@ func (r *renderState) filterRaw(rawHTML []byte) {
 		case copyState:
 			if rawHTML[i] == '<' {
 				switch {
-				case hasBytePrefix(rawHTML[i:], cdataPrefix):
-					state = cdataState
-					i += len(cdataPrefix)
 				case hasBytePrefix(rawHTML[i:], htmlCommentPrefix):
 					state = commentState
 					i += len(htmlCommentPrefix)
-				case hasHTMLDeclarationPrefix(rawHTML[i:]):
+					// An HTML tokenizer lets a comment end right where it starts.
+					switch {
+					case hasBytePrefix(rawHTML[i:], ">"):
+						state = copyState
+						i += len(">")
+					case hasBytePrefix(rawHTML[i:], "->"):
+						state = copyState
+						i += len("->")
+					}
+				case hasBytePrefix(rawHTML[i:], "<!") || hasBytePrefix(rawHTML[i:], processingInstructionPrefix):
+					// For an HTML tokenizer, declarations, CDATA sections
+					// and processing instructions all end at the next '>'.
 					state = declState
-					i += len("<!x")
+					i += len("<!")
+				case hasBytePrefix(rawHTML[i:], "</") && (i+2 >= len(rawHTML) || !isASCIILetter(rawHTML[i+2])):
+					// Not an end tag: either "</>" or a comment up to the next '>'.
+					state = declState
+					i += len("</")
+				case i+1 >= len(rawHTML) || !(isASCIILetter(rawHTML[i+1]) || rawHTML[i+1] == '/'):
+					// Not markup: a tokenizer treats this '<' as text.
+					i++
 				default:
 					tagNameStart := i + 1
 					tagEnd := len(rawHTML)
@@ -452,6 +467,9 @@ func (r *renderState) filterRaw(rawHTML []byte) {
 			if hasBytePrefix(rawHTML[i:], htmlCommentSuffix) {
 				state = copyState
 				i += len(htmlCommentSuffix)
+			} else if hasBytePrefix(rawHTML[i:], "--!>") {
+				state = copyState
+				i += len("--!>")
 			} else {
 				i++
 			}
